@@ -1952,6 +1952,69 @@ impl World {
             }
         }
         // corruption of a pack after a replica has loaded it: later reads return the original content or an error
+        // a pack is damaged or vanishes AFTER the replica indexed it, then a block naming it arrives: the refresh
+        // must hold the block back (the verdict on a pack is not cached across refreshes)
+        {
+            let named: BTreeSet<String> = keys
+                .iter()
+                .filter(|k| k.ends_with(".delta"))
+                .filter_map(|k| serde_json::from_slice::<Value>(&items[k]).ok())
+                .flat_map(|v| v.get("p").and_then(|p| p.as_array().cloned()).unwrap_or_default())
+                .filter_map(|p| p.as_str().map(|s| s.to_string()))
+                .collect();
+            let heads: Vec<(String, Vec<String>)> = keys
+                .iter()
+                .filter(|k| k.ends_with(".delta"))
+                .filter_map(|k| {
+                    let id = k.trim_end_matches(".delta").to_string();
+                    let v = serde_json::from_slice::<Value>(&items[k]).ok()?;
+                    let ks: Vec<String> = v.get("k")?.as_array()?.iter().filter_map(|x| x.as_str().map(|s| s.to_string())).collect();
+                    if ks.is_empty() || named.contains(&id) || !ks.iter().all(|p| items.contains_key(&format!("{}.pack", p))) {
+                        None
+                    } else {
+                        Some((id, ks))
+                    }
+                })
+                .collect();
+            if !heads.is_empty() {
+                let (bid, ks) = g.pick(&heads).clone();
+                let bkey = format!("{}.delta", bid);
+                let mut base = items.clone();
+                base.remove(&bkey);
+                let st = SimStore::from_items(base);
+                if let Ok(mut live) = Melda::new(st.dyn_adapter()) {
+                    let pk = format!("{}.pack", g.pick(&ks));
+                    let how = if g.chance(1, 2) {
+                        st.remove_raw(&pk);
+                        "removed"
+                    } else {
+                        let mut v = items[&pk].clone();
+                        if !v.is_empty() {
+                            let i = g.below(v.len());
+                            v[i] ^= 1 << g.below(8);
+                        }
+                        st.put_raw(&pk, v);
+                        "damaged"
+                    };
+                    st.put_raw(&bkey, items[&bkey].clone());
+                    let rr = catch_unwind(AssertUnwindSafe(|| live.refresh().is_ok()));
+                    *self.stats.entry("pack_lost_before_block_arrives".into()).or_insert(0) += 1;
+                    match rr {
+                        Err(_) => {
+                            fails.push(("C10", format!("refresh aborts when pack {} was {} before block {} arrived", pk, how, bid)));
+                            fails.push(("C08", format!("refresh aborts when pack {} was {} before block {} arrived", pk, how, bid)));
+                        }
+                        Ok(_) => {
+                            if live.verif_delta_status().get(&bid) == Some(&"applied") {
+                                let w = format!("block {} was applied by a refresh although its pack {} had been {} (the pack was indexed earlier)", bid, pk, how);
+                                fails.push(("C02", w.clone()));
+                                fails.push(("C10", w));
+                            }
+                        }
+                    }
+                }
+            }
+        }
         // (blocks too: a block damaged after it was loaded must not be passed on by meld under its old name)
         let packs: Vec<&String> = keys.iter().filter(|k| k.ends_with(".pack") || k.ends_with(".delta")).collect();
         if !packs.is_empty() {
